@@ -171,6 +171,11 @@ func runMerge(
 	if !strings.HasPrefix(name, "heads/") {
 		return fmt.Errorf("%q is not a branch name", args[0])
 	}
+	// the branch is updated by the merge, so the first argument must name the branch itself,
+	// not a commit behind its head (e.g. "main^")
+	if head, err := rs.Get(name); err != nil || !bytes.Equal(head, sum) {
+		return fmt.Errorf("%q is not a branch name", args[0])
+	}
 	commits := [][]byte{sum}
 	commitNames := []string{displayableCommitName(args[0], sum)}
 	for _, s := range args[1:] {
